@@ -145,7 +145,15 @@ def _install_reset(watched):
     """Every execution starts from the same shared state: census containers are emptied (they are
     empty when the library is first imported)."""
     conts = sched.shared_containers(watched)
-    sched.RESET_HOOKS[:] = [lambda: [c.clear() for c in conts]]
+    rebound = sched.rebound_initial_values(watched)
+
+    def reset():
+        for c in conts:
+            c.clear()
+        for mod, n, v in rebound:
+            setattr(mod, n, v)
+
+    sched.RESET_HOOKS[:] = [reset]
 
 
 def schedule_work(unit):
@@ -169,7 +177,12 @@ def schedule_work(unit):
                     return f"thread {i}: got {r!r}, serial result {s!r}"
             return None
 
-        st = sched.explore(bodies, points, bound, check, cap=cap)
+        try:
+            st = sched.explore(bodies, points, bound, check, cap=cap)
+        except sched.Diverged as e:
+            # identical schedules from identical (reset) shared state that do not replay identically:
+            # the library keeps state the census cannot see and its behaviour depends on it
+            return name, {"schedules": 0, "max_points": 0, "failing": [([], f"executions are not reproducible under a fixed schedule ({e}): hidden shared state", True)], "capped": False, "outcomes": 0}, report
         # replay every failing schedule once more: it must fail again, identically
         confirmed = []
         for choices, msg in st["failing"][:20]:
